@@ -204,8 +204,10 @@ Print Assumptions C03_needs_child_exit_witness.
 From Coq Require Import String.
 From NL Require Import Life.ImpSyntax Gen.ImpSkeleton Life.ImpTie.
 
-(** every trigger and every pubsub.close() under the lock; the lock never requested while held,
-    user code never run under it, and free again when the call ends -- whatever raised *)
+(** every trigger issued by a method of Imp / Nextline (the run task's own `finish` is outside the
+    lock by design, fsm/callback.py) and every pubsub.close() under the lock; the lock never
+    requested while held, user code never run under it, no wait_for timeout armed under it, and free
+    again when the call ends -- whatever raised (the release itself is the meaning of `async with`) *)
 Theorem C03_tie_lock_released_on_every_path : forall ob m, In m (names ob) -> forall st cl o,
   let x := exec ob m st cl o in
   res_of x <> RBad /\ lock_ok false (trace_of x) = true /\ lk_held (cfg_of x) = false.
@@ -243,7 +245,8 @@ Theorem C03_tie_wait_lock_status :
   locked_pc C_WaitRunFinished = true /\ locked_pc P_WaitRunFinished = false.
 Proof. exact wait_for_run_lock_status. Qed.
 
-(** a second close() returns at the `_closed` guard *)
+(** a close() issued when `_closed` is True -- i.e. after a close() that COMPLETED, see
+    C03_tie_cut_close_can_be_repeated -- returns at the guard *)
 Theorem C03_tie_second_close_does_nothing : forall st o,
   exec ONextline "close"%string st true o =
     (RNorm, mkCfg st true false, [EEnter ONextline "close"%string; EGuard (GFlag FClosed) true]).
@@ -252,8 +255,46 @@ Proof. exact second_close_does_nothing. Qed.
 (** close() on a never-started object starts it first (fix 3e5a1b5) *)
 Theorem C03_tie_close_starts_first : forall m, In m close_names -> forall o,
   let x := exec ONextline m false false o in
-  opened_first false (trace_of x) = true /\ f_started (cfg_of x) = true /\ f_closed (cfg_of x) = true.
+  opened_first false (trace_of x) = true /\ f_started (cfg_of x) = true /\
+  (is_norm (res_of x) = true -> f_closed (cfg_of x) = true).
 Proof. exact close_starts_first. Qed.
+
+(** a close() that was cut at ANY await (refused trigger, raising hook, cancellation, the timeout of
+    __aexit__) raises and leaves `_closed` False, so that the next close() does the work again; a
+    close() in which nothing raised returns with `_closed` True; the lock is free (fix 9ec32d9) *)
+Theorem C03_tie_cut_close_can_be_repeated : forall m, In m close_names -> forall st o,
+  let x := exec ONextline m st false o in
+  (existsb raised (trace_of x) = true -> res_of x = RExc /\ f_closed (cfg_of x) = false) /\
+  (existsb raised (trace_of x) = false -> is_norm (res_of x) = true /\ f_closed (cfg_of x) = true) /\
+  lk_held (cfg_of x) = false.
+Proof. exact cut_close_can_be_repeated. Qed.
+
+(** the only `asyncio.wait_for` is the one of __aexit__ around the whole of close(), outside the lock *)
+Theorem C03_tie_timeout_only_around_close_in_aexit :
+  (forall m, In m (names ONextline) -> forall st cl o, waitfor_ok m (exec ONextline m st cl o) = true) /\
+  (forall m, In m (names OImp) -> forall st cl o, existsb is_waitfor (trace_of (exec OImp m st cl o)) = false) /\
+  assoc "__aexit__"%string nextline_methods = Some (WaitFor (ImpSyntax.Call ONextline "close"%string)).
+Proof. exact timeout_only_around_close_in_aexit. Qed.
+
+(** the timeout of __aexit__ fires while close() waits for the run: TimeoutError propagates (intended
+    API; for C03 the recorded finding "the run does not end"), lock released, `close` never
+    triggered, `_closed` False again, and a later close() takes the model's close path *)
+Theorem C03_tie_aexit_timeout_while_waiting_for_the_run :
+  let x := exec ONextline "__aexit__"%string true false [false; false; true; true] in
+  res_of x = RExc /\ f_closed (cfg_of x) = false /\ lk_held (cfg_of x) = false /\
+  trace_of x = [EEnter ONextline "__aexit__"%string; EWaitFor; EEnter ONextline "close"%string; EGuard (GFlag FClosed) false;
+                ESet FClosed true; EEnter ONextline "start"%string; EGuard (GFlag FStarted) true;
+                EEnter OImp "aclose"%string; EAcq true; EPubClose true; EGuard (GStateIs "running"%string) true;
+                EWaitRun false; ERel; ESet FClosed false] /\
+  happy ONextline "close"%string true (f_closed (cfg_of x)) true = [model_acts 2 s_running close_ls_running].
+Proof. exact aexit_timeout_while_waiting_for_the_run. Qed.
+
+(** per-call refinement against Model.do_call / do_step (Life/ImpTie.v section 5), every oracle *)
+Theorem C03_tie_call_refinement : forall s c m, In s ref_states -> In c ref_calls -> In m (nl_methods_of c) ->
+  (forall o, let x := exec ONextline m (nl_started s) (nl_closed s) o in
+     verdict_of s c x <> VMismatch /\ (verdict_of s c x = VEqual -> end_agrees s c x = true)) /\
+  (exists o, verdict_of s c (exec ONextline m (nl_started s) (nl_closed s) o) = VEqual).
+Proof. exact call_refinement. Qed.
 
 Print Assumptions C03_tie_lock_released_on_every_path.
 Print Assumptions C03_tie_close_order.
@@ -261,3 +302,7 @@ Print Assumptions C03_tie_close_cut_path.
 Print Assumptions C03_tie_wait_lock_status.
 Print Assumptions C03_tie_second_close_does_nothing.
 Print Assumptions C03_tie_close_starts_first.
+Print Assumptions C03_tie_cut_close_can_be_repeated.
+Print Assumptions C03_tie_timeout_only_around_close_in_aexit.
+Print Assumptions C03_tie_aexit_timeout_while_waiting_for_the_run.
+Print Assumptions C03_tie_call_refinement.
